@@ -132,7 +132,7 @@ class Slice(object):
             self.reads.append((kind, want, None, c))
             return UNKNOWN
         self.pos += 1
-        self.reads.append((kind, want, (tk, tv, tw, tc), c))
+        self.reads.append((kind, want, self.tokens[self.pos - 1], c))
         if tk != kind and (tk, kind) not in COMPAT:
             raise Mismatch('decoder reads %s where the encoder wrote %s' % (kind, tk))
         if kind == 'BYTES' and want is not UNKNOWN and tv is not UNKNOWN:
@@ -172,6 +172,11 @@ class Slice(object):
                         if isinstance(n, ast.Assign):
                             for tg in n.targets:
                                 self.bind(tg, UNKNOWN)
+                        elif isinstance(n, ast.AugAssign):
+                            self.bind(n.target, UNKNOWN)
+                        elif isinstance(n, ast.Call) and isinstance(n.func, ast.Attribute) and isinstance(n.func.value, ast.Name) and n.func.value.id != self.stream \
+                                and n.func.value.id in self.env:
+                            self.env[n.func.value.id] = UNKNOWN
                     continue
                 self.block(s.body if t else s.orelse)
             elif isinstance(s, ast.Expr):
@@ -190,6 +195,12 @@ class Slice(object):
                     if isinstance(n, (ast.Assign, ast.AugAssign)):
                         for tg in (n.targets if isinstance(n, ast.Assign) else [n.target]):
                             self.bind(tg, UNKNOWN)
+                    elif isinstance(n, ast.Call) and isinstance(n.func, ast.Attribute) and isinstance(n.func.value, ast.Name) and n.func.value.id != self.stream:
+                        # x.append(...) and the like: the object held by x may have changed
+                        if n.func.value.id in self.env:
+                            self.env[n.func.value.id] = UNKNOWN
+                    elif isinstance(n, ast.For):
+                        self.bind(n.target, UNKNOWN)
             elif isinstance(s, ast.Raise):
                 raise _Return()
 
